@@ -14,6 +14,12 @@ def _ctx(children_ctx, children_stack):
                               st.fixed_dictionaries({"root": st.sampled_from([None, "rt"]), "frames": st.just([]),
                                                      "leaf": st.none(), "error": st.none()})),
                     min_size=0, max_size=3)
+    # a hidden child context between two child task stacks: with hidden things left out, whatever separates the children
+    # on either side of it becomes adjacent
+    hidden_child = {"obj": None, "is_async": False, "is_exiting": False, "varname": "cv", "start_line": None,
+                    "description": "cd", "hide": True, "inner": None, "children": []}
+    sandwich = st.tuples(children_stack, children_stack).map(lambda p: [p[0], dict(hidden_child), p[1]])
+    kids = st.one_of(kids, kids, kids, kids, sandwich)
     return st.fixed_dictionaries({
         "obj": st.sampled_from([None, "int", "str", "obj"]),
         "is_async": st.booleans(),
